@@ -318,6 +318,69 @@ theorem in_time_no_removal (st : Static) (ops : List Op) (hnr : NoRemove ops) :
   have := foldl_step_tinv st ops GState.init hnr (init_inv st) h0
   exact (addGlue_all_done st _ this.1 this.2).2
 
+/-! ### scans during which modules appear -/
+
+theorem insertAll_prefix (p ms : List Mod) : ∃ t, insertAll p ms = p ++ t := by
+  induction ms generalizing p with
+  | nil => exact ⟨[], by simp [insertAll]⟩
+  | cons m ms ih =>
+    simp only [insertAll, List.foldl_cons]
+    split
+    · exact ih p
+    · obtain ⟨t, ht⟩ := ih (p ++ [m])
+      refine ⟨[m] ++ t, ?_⟩
+      simp only [insertAll] at ht
+      rw [ht]; simp
+
+theorem insertAll_mem (p ms : List Mod) (m : Mod) (hm : m ∈ ms) : m ∈ insertAll p ms := by
+  induction ms generalizing p with
+  | nil => cases hm
+  | cons x xs ih =>
+    simp only [insertAll, List.foldl_cons]
+    rcases List.mem_cons.mp hm with rfl | hm
+    · split
+      · rename_i hc
+        obtain ⟨t, ht⟩ := insertAll_prefix p xs
+        simp only [insertAll] at ht
+        rw [ht]; exact List.mem_append_left _ (by simpa using hc)
+      · obtain ⟨t, ht⟩ := insertAll_prefix (p ++ [m]) xs
+        simp only [insertAll] at ht
+        rw [ht]; simp
+    · split
+      · exact ih p hm
+      · exact ih _ hm
+
+theorem addGlueA_inv (st : Static) (g : GState) (appear : List Mod) (h : SInv st g) : SInv st (addGlueA st g appear) := by
+  unfold addGlueA
+  split
+  · obtain ⟨nd, rd, mb, bo⟩ := sinv_log_returned st g h
+    exact ⟨nd, rd, mb, bo⟩
+  · have := fold_visit_inv st g.present g (by intro m hm; simpa using hm) h
+    obtain ⟨nd, rd, mb, bo⟩ := sinv_log_returned st _ this.1
+    exact ⟨nd, rd, mb, bo⟩
+
+/-- The cache invariant survives a scan during which modules appear: the cache is the size of the visited snapshot, which
+is a prefix of the new module list, and everything in it has been dealt with. -/
+theorem addGlueA_tinv (st : Static) (g : GState) (appear : List Mod) (h : SInv st g) (ht : TInv st g) :
+    TInv st (addGlueA st g appear) := by
+  unfold addGlueA
+  split
+  · obtain ⟨t, hp⟩ := insertAll_prefix g.present appear
+    refine ⟨?_, ?_⟩
+    · simp only [hp, List.length_append]; have := ht.le; omega
+    · intro m hm
+      simp only [hp] at hm
+      rw [List.take_append_of_le_length ht.le] at hm
+      exact done_of_popped_mono st g _ m (fun _ a => a) (fun _ a => a) (ht.pre m hm)
+  · have hf := fold_visit_inv st g.present g (by intro m hm; simpa using hm) h
+    obtain ⟨t, hp⟩ := insertAll_prefix g.present appear
+    refine ⟨?_, ?_⟩
+    · simp only [hf.2.1, hp, List.length_append]; omega
+    · intro m hm
+      simp only [hf.2.1, hp] at hm
+      rw [List.take_append_of_le_length (Nat.le_refl _), List.take_length] at hm
+      exact done_of_popped_mono st _ _ m (fun _ a => a) (fun _ a => a) (hf.2.2.2 m hm)
+
 end SS.Glue
 
 namespace SS.Glue
